@@ -12,6 +12,13 @@ CanDeliver(next, N, ids) == /\ ids # <<>>
                             /\ \A k \in 1..Len(ids) : ids[k] = next + k - 1
 CanStop(next, N)         == next = N + 1
 CanFail(K, maxEntryLen)  == K < maxEntryLen
+\* C15: a file whose entry `bad` violates the format (bad = 0: well-formed).  A format error may only be raised
+\* while the offending entry is still undelivered, and a diagnosed line number lies within that entry's lines
+\* (zero-based, counted from the start of the data)
+RECURSIVE FirstLineOf(_, _)
+FirstLineOf(entryLines, e) == IF e <= 1 THEN 0 ELSE entryLines[e - 1] + FirstLineOf(entryLines, e - 1)
+CanError(next, bad) == bad > 0 /\ next <= bad
+LineInEntry(entryLines, bad, line) == line >= FirstLineOf(entryLines, bad) /\ line < FirstLineOf(entryLines, bad) + entryLines[bad]
 
 RECURSIVE SumLines(_, _, _)
 SumLines(entryLines, from, to) == IF from > to THEN 0 ELSE entryLines[from] + SumLines(entryLines, from + 1, to)
